@@ -85,6 +85,20 @@ func processScenarios(tier string) (out []Case2) {
 			sc.Expect[0][0] = "70010000000311ab01"
 			out = append(out, Case2{Scenario: sc, Budget: 1})
 		}
+		// two requests that are both refused, sent in one write: each exception must be addressed to its own request
+		badA := "700300000006112b0e0100aa" // unsupported function 0x2B, tid 7003
+		badB := "7004000000061203000a007e" // FC3 quantity 126, tid 7004, unit 0x12
+		scp := srvx.Scenario{Name: "P/two-refused-requests-in-one-write", Callbacks: cb, Handler: "instant", Control: "none",
+			Clients: [][]string{{"dial", "write:" + badA + badB + good, "recvall:3", "close"}},
+			Expect:  [][]string{{"70030000000311ab01", "70040000000312" + "8303", refHex(good)}}}
+		out = append(out, Case2{Scenario: scp, Budget: d})
+		// a refused request whose second half arrives after a pause, then a valid one
+		for _, ms := range []int{60, 6000} {
+			scq := srvx.Scenario{Name: fmt.Sprintf("P/split-refused-request-pause-%dms", ms), Callbacks: cb, Handler: "instant", Control: "none",
+				Clients: [][]string{{"dial", "write:" + badB[:16], "quiesce", fmt.Sprintf("sleep:%d", ms), "write:" + badB[16:], "quiesce", "write:" + good, "recvall:2", "close"}},
+				Expect:  [][]string{{"700400000003128303", refHex(good)}}}
+			out = append(out, Case2{Scenario: scq, Budget: 1})
+		}
 		// panic while shutdown is waiting for that very handler
 		sc := srvx.Scenario{Name: "P/panic-during-shutdown", Callbacks: cb, Handler: "sleep10", Control: "shutdown", ControlAt: 2, Clients: [][]string{{"dial", "send", "recv", "close"}}, PanicOnConn: 1}
 		out = append(out, Case2{Scenario: sc, Budget: d})
